@@ -69,6 +69,8 @@ Definition aclosed (sd : side) (s : astate) : bool := match sd with Up => as_up 
 Definition acan_copy (sh : shape) (s : astate) : bool :=
   as_replied s && (negb (sh_drain_first sh) || (n_pre (as_ct s) =? 0)).
 Definition aany_closed (s : astate) : bool := as_up s || as_down s.
+Definition amay_break (sh : shape) (s : astate) (d : dir) : bool :=
+  aany_closed s || (negb (sh_clears_deadline sh) && dir_eqb d CT).
 Definition ais_done (x : adstate) : bool := cop_eqb (n_cop x) Done.
 Definition aboth_done (s : astate) : bool := ais_done (as_ct s) && ais_done (as_tc s).
 Definition afinished (sh : shape) (s : astate) : bool :=
@@ -109,7 +111,7 @@ Definition astepb (sh : shape) (s : astate) (l : alabel) : option astate :=
                  end)
       else None
   | AD d a =>
-      match adstepb sh (acan_copy sh s) (aany_closed s) (aget d s) a with
+      match adstepb sh (acan_copy sh s) (amay_break sh s d) (aget d s) a with
       | Some x' => Some (anote_done a (aset d s x'))
       | None => None
       end
@@ -242,8 +244,8 @@ Proof.
     destruct (negb (aclosed sd s) && (afinished sh s && closes sh sd || agrace_over sh s)); intro H; inversion H; subst.
     destruct sd; reflexivity.
   - rewrite aget_conc, acan_copy_conc.
-    assert (E : any_closed (concs s) = aany_closed s) by reflexivity. rewrite E.
-    destruct (adstepb sh (acan_copy sh s) (aany_closed s) (aget d s) a) eqn:A; intro H; inversion H; subst.
+    assert (E : may_break sh (concs s) d = amay_break sh s d) by reflexivity. rewrite E.
+    destruct (adstepb sh (acan_copy sh s) (amay_break sh s d) (aget d s) a) eqn:A; intro H; inversion H; subst.
     rewrite (adstepb_conc _ _ _ _ _ _ A), aset_conc, anote_done_conc. reflexivity.
 Qed.
 
